@@ -61,7 +61,7 @@ theorem near_of_findOne_eq {now : Int} {c c' : Coll} {f proj : Val} {sort : Opti
 theorem fam_go_fail (cfg : Cfg) (now : Int) (c : Coll) (query proj : Val) (update : Option Val)
     (upsert : Bool) (sort : Option SortSpec) (after : Bool) (c' : Coll) (e : Err)
     (h : findAndModify.go cfg now c query proj update upsert sort after = (c', .error e)) :
-    Near now c c' ∨ (after = true ∧ ∃ c3 v,
+    Near now c c' ∨ (after = true ∧ findAndModify.projOk proj = .ok () ∧ ∃ c3 v,
       findAndModify.go cfg now c query proj update upsert sort false = (c3, .ok v) ∧
       Near now c3 c') := by
   unfold findAndModify.go at h ⊢
@@ -83,6 +83,12 @@ theorem fam_go_fail (cfg : Cfg) (now : Int) (c : Coll) (query proj : Val) (updat
           | none => simp at h
           | some u =>
             simp only at h ⊢
+            cases hpo : findAndModify.projOk proj with
+            | error ep => rw [hpo] at h; simp only at h; cases h; exact .inl n1
+            | ok uu =>
+            cases uu
+            rw [hpo] at h
+            simp only at h ⊢
             cases ha : applyUpdateColl cfg now c1 query u true false with
             | mk c2 r =>
               rw [ha] at h
@@ -97,7 +103,7 @@ theorem fam_go_fail (cfg : Cfg) (now : Int) (c : Coll) (query proj : Val) (updat
                 | false => simp at h
                 | true =>
                   simp only [if_true] at h
-                  exact .inr ⟨rfl, c2, none, rfl, near_of_findOne_eq h⟩
+                  exact .inr ⟨rfl, trivial, c2, none, rfl, near_of_findOne_eq h⟩
       | some target =>
         simp -zeta only at h ⊢
         extract_lets idv q at h ⊢
@@ -127,6 +133,12 @@ theorem fam_go_fail (cfg : Cfg) (now : Int) (c : Coll) (query proj : Val) (updat
                   exact .inl n2
             | some u =>
               simp only at h ⊢
+              cases hpo : findAndModify.projOk proj with
+              | error ep => rw [hpo] at h; simp only at h; cases h; exact .inl n2
+              | ok uu =>
+              cases uu
+              rw [hpo] at h
+              simp only at h ⊢
               cases ha : applyUpdateColl cfg now c2 q u upsert false with
               | mk c3 r =>
                 rw [ha] at h
@@ -141,12 +153,12 @@ theorem fam_go_fail (cfg : Cfg) (now : Int) (c : Coll) (query proj : Val) (updat
                   | false => simp at h
                   | true =>
                     simp only [if_true] at h
-                    exact .inr ⟨rfl, c3, old, rfl, near_of_findOne_eq h⟩
+                    exact .inr ⟨rfl, trivial, c3, old, rfl, near_of_findOne_eq h⟩
 
 theorem fam_fail (cfg : Cfg) (now : Int) (c : Coll) (query proj : Val) (update : Option Val)
     (upsert : Bool) (sort : Option SortSpec) (after : Bool) (c' : Coll) (e : Err)
     (h : findAndModify cfg now c query proj update upsert sort after = (c', .error e)) :
-    Near now c c' ∨ (after = true ∧ ∃ c3 v,
+    Near now c c' ∨ (after = true ∧ findAndModify.projOk proj = .ok () ∧ ∃ c3 v,
       findAndModify cfg now c query proj update upsert sort false = (c3, .ok v) ∧
       Near now c3 c') := by
   unfold findAndModify at h ⊢
@@ -158,7 +170,10 @@ theorem fam_fail (cfg : Cfg) (now : Int) (c : Coll) (query proj : Val) (update :
     · cases h; exact .inl (Near.refl _ _)
     · rename_i ht
       simp only [ht]
-      exact fam_go_fail cfg now c query proj (some u) upsert sort after c' e h
+      split at h
+      · cases h; exact .inl (Near.refl _ _)
+      · rename_i hv
+        exact fam_go_fail cfg now c query proj (some u) upsert sort after c' e h
 
 /-! ### the step -/
 
@@ -194,7 +209,7 @@ theorem famStep_fail (cfg : Cfg) (now : Int) (c : Coll) (query proj : Val) (upda
     (sortV : Val) (upsert after : Bool)
     (h : (famStep cfg now c query proj update sortV upsert after).2.isErr = true) :
     Near now c (famStep cfg now c query proj update sortV upsert after).1 ∨
-    (after = true ∧
+    (after = true ∧ findAndModify.projOk proj = .ok () ∧
       (famStep cfg now c query proj update sortV upsert false).2.isErr = false ∧
       Near now (famStep cfg now c query proj update sortV upsert false).1
         (famStep cfg now c query proj update sortV upsert after).1) := by
@@ -212,11 +227,24 @@ theorem famStep_fail (cfg : Cfg) (now : Int) (c : Coll) (query proj : Val) (upda
         | ok v => simp [Out.isErr] at h
         | error e =>
           rcases fam_fail cfg now c (.doc fs) proj update upsert sort after c' e hf with
-            hn | ⟨ha, c3, v, h3, hn⟩
+            hn | ⟨ha, hpo, c3, v, h3, hn⟩
           · exact .inl hn
-          · refine .inr ⟨ha, ?_, ?_⟩
+          · refine .inr ⟨ha, hpo, ?_, ?_⟩
             · rw [h3]; rfl
             · rw [h3]; exact hn
   · exact .inl (Near.refl _ _)
+
+/-- `find_one_and_update` / `_replace`: the operator names are checked before the target is
+    looked for -/
+theorem fam_precheck_before_lookup (cfg : Cfg) (now : Int) (c : Coll) (query proj : Val)
+    (ufs : Fields) (upsert : Bool) (sort : Option SortSpec) (after : Bool) (e : Err)
+    (hne : ufs ≠ []) (h : validateUpdateOperators ufs = .error e) :
+    findAndModify cfg now c query proj (some (.doc ufs)) upsert sort after = (c, .error e) := by
+  unfold findAndModify
+  have ht : (Val.doc ufs).truthy = true := by
+    cases ufs with
+    | nil => exact absurd rfl hne
+    | cons x xs => rfl
+  simp only [ht, Bool.not_true, Bool.false_eq_true, if_false, h]
 
 end MongoModel.Proofs.C08Lemmas
